@@ -96,6 +96,188 @@ def gen_chain_program(rnd, tag, max_ops):
     return steps
 
 
+
+# ------------------------------------------------------------------ process-wide defaults (TypedPyDefaults)
+
+DEFAULT_CFG = {"allow_none_for_optionals": False, "additional_properties_default": True, "defensive_copy_on_get": True}
+CONFIGS4 = [dict(DEFAULT_CFG, allow_none_for_optionals=a, additional_properties_default=b)
+            for a in (False, True) for b in (True, False)]
+ABSENT = "<absent>"
+# class-level options that decide how a field of the class treats a value
+VALUE_OPTIONS = ("_ignore_none", "_enable_undefined_value")
+
+
+class with_globals(object):
+    """Sets the given TypedPyDefaults attributes for the duration of a block."""
+
+    def __init__(self, cfg):
+        self.cfg = dict(cfg or {})
+
+    def __enter__(self):
+        from typedpy.structures import TypedPyDefaults
+        self.saved = {k: getattr(TypedPyDefaults, k) for k in self.cfg}
+        for k, v in self.cfg.items():
+            setattr(TypedPyDefaults, k, v)
+        return self
+
+    def __exit__(self, *a):
+        from typedpy.structures import TypedPyDefaults
+        for k, v in self.saved.items():
+            setattr(TypedPyDefaults, k, v)
+        return False
+
+
+def cfg_src(cfg):
+    lines = ["TypedPyDefaults.%s = %r\n" % (k, v) for k, v in sorted((cfg or {}).items()) if DEFAULT_CFG.get(k) != v]
+    return ("from typedpy.structures import TypedPyDefaults\n" + "".join(lines)) if lines else ""
+
+
+def cfg_tag(cfg):
+    return ",".join("%s=%s" % (k.split("_")[0], int(v)) for k, v in sorted((cfg or {}).items()) if DEFAULT_CFG.get(k) != v) or "default"
+
+
+def gen_cfg(rnd):
+    c = dict(rnd.choice(CONFIGS4)) if rnd.random() < 0.5 else dict(DEFAULT_CFG)
+    if rnd.random() < 0.1:
+        c["defensive_copy_on_get"] = False
+    return c
+
+
+# ------------------------------------------------------------------ hierarchies: one operator over a base class and its
+# subclasses / siblings, in a given order (whatever a derivation leaves behind on a class is seen by its relatives)
+
+def gen_hier_program(rnd, tag, order, spelling, with_grand):
+    """Base, Src(Base), Sib(Base) [, Grand(Src)] and then every operator applied, with the default class name, to the
+    classes in `order` (indices into the class list).  Omit/Pick name fields of Base -- every class has them -- so that
+    the calls differ in the source class only.  spelling 'method' = Structure.omit / Structure.pick."""
+    names = D.FIELD_NAMES
+    stmts = [D.gen_stmt(rnd, "Base" + tag, ["Structure"], names[:2]),
+             D.gen_stmt(rnd, "Src" + tag, ["Base" + tag], names[2:4]),
+             D.gen_stmt(rnd, "Sib" + tag, ["Base" + tag], names[4:5])]
+    if with_grand:
+        stmts.append(D.gen_stmt(rnd, "Grand" + tag, ["Src" + tag], names[5:6]))
+    for st in stmts[1:]:
+        st["optional"] = None
+    steps = [["def", st] for st in stmts]
+    common = [names[0]] if rnd.random() < 0.5 else rnd.sample(names[:2], rnd.randint(0, 2))
+    ops = OPS if spelling == "subscript" else ["omit", "pick"]
+    for opn in ops:
+        for ci in order:
+            if ci >= len(stmts):
+                continue
+            op = [opn] + ([list(common)] if opn in ("omit", "pick") else [])
+            st = ["derive", stmts[ci]["name"], op, None]
+            if spelling == "method":
+                st.append("method")
+            steps.append(st)
+    return steps
+
+
+def gen_redefine_program(rnd, tag, spelling):
+    """A class, every operator on it (default class names); then ANOTHER class of the same name (other fields) and
+    every operator again: what was made for the first class must not be handed out for the second."""
+    names = D.FIELD_NAMES
+    steps = []
+    for rnd_i in range(2):
+        st = D.gen_stmt(rnd, "Src" + tag, [rnd.choice(["Structure", "ImmutableStructure"])],
+                        [names[0]] + (names[1:3] if rnd_i == 0 else names[3:5]))
+        steps.append(["def", st])
+        for opn in (OPS if spelling == "subscript" else ["omit", "pick"]):
+            op = [opn] + ([[names[0]]] if opn in ("omit", "pick") else [])
+            steps.append(["derive", "Src" + tag, op, None] + (["method"] if spelling == "method" else []))
+    return steps
+
+
+# ------------------------------------------------------------------ class-level options: every explicit value, own /
+# inherited / overriding, under every process-wide default
+
+OPTION_SHAPES = [(opt, place, val)
+                 for opt in ("_ignore_none", "_additional_properties", "_enable_undefined_value")
+                 for place in ("own", "inherited", "override")
+                 for val in (False, True)] + [(None, "absent", None)]
+
+
+def set_option(stmt, opt, val):
+    if opt == "_ignore_none":
+        stmt["ignore_none"] = val
+    elif opt == "_additional_properties":
+        stmt["additional"] = val
+    else:
+        stmt["attrs"] = [a for a in stmt["attrs"] if a[0] != opt] + [[opt, "bool" if val else "boolf"]]
+
+
+_FALSY = {"num": ("int", 0), "str": ("str", ""), "bool": ("bool", False)}
+_SCRATCH_NS = []
+
+
+def falsy_defaulted_member(rnd, name):
+    """A field declaration whose default is a falsy value the field accepts (checked on the implementation)."""
+    if not _SCRATCH_NS:
+        _SCRATCH_NS.append(D.fresh_ns())
+    for _ in range(12):
+        f = D.gen_field(rnd)
+        v = _FALSY.get(f["t"])
+        if v is None:
+            continue
+        m = {"name": name, "kind": "decl", "field": f, "imm": False, "style": "ann", "kwd": None, "eqd": None}
+        m["kwd" if rnd.random() < 0.4 else "eqd"] = ["lit", v]
+        probe = {"name": "FalsyProbe", "bases": ["Structure"], "members": [m], "required": None, "optional": None,
+                 "additional": None, "ignore_none": None, "attrs": [], "keys_of": []}
+        try:
+            exec(D.stmt_src(probe), dict(_SCRATCH_NS[0]))
+        except Exception:  # noqa
+            continue
+        return m
+    return None
+
+
+def gen_option_program(rnd, tag, shape, base_kind):
+    """A source with a required, an optional and a defaulted field whose class-level option `opt` is set to `val`
+    in its own body / only in its base class / in its own body against the opposite value in the base class;
+    then all five operators (and the two method spellings)."""
+    opt, place, val = shape
+    names = D.FIELD_NAMES[:4]
+
+    def plain(name, bases, own, req):
+        for _ in range(20):
+            ms = D.gen_members(rnd, own, p_default=0.0)
+            if any(m["field"]["t"] in D.DEFAULTABLE for m in ms[-1:]):
+                break
+        last = ms[-1]
+        fz = falsy_defaulted_member(rnd, last["name"]) if rnd.random() < 0.5 else None
+        if fz is not None:
+            ms[-1] = last = fz            # a default that is a falsy value (0, '', False): still a default
+        elif last["field"]["t"] in D.DEFAULTABLE:
+            d = D.gen_default(rnd, last["field"])
+            if d is not None:
+                last["eqd"] = d
+                last["style"] = "ann"
+        return {"name": name, "bases": bases, "members": ms, "required": req, "optional": None, "additional": None,
+                "ignore_none": None, "attrs": [], "keys_of": []}
+
+    steps = []
+    if place in ("own", "absent"):
+        src = plain("Src" + tag, [base_kind], names, [names[0]])
+        if opt:
+            set_option(src, opt, val)
+        steps.append(["def", src])
+    else:
+        base = plain("Base" + tag, ["Structure"], names[:2], [names[0]])
+        src = plain("Src" + tag, ["Base" + tag], names[2:], [])
+        set_option(base, opt, val if place == "inherited" else (not val))
+        if place == "override":
+            set_option(src, opt, val)
+        steps += [["def", base], ["def", src]]
+    for opn in OPS:
+        steps.append(["derive", "Src" + tag, [opn] + ([None] if opn in ("omit", "pick") else []), None])
+    for opn in ("omit", "pick"):
+        steps.append(["derive", "Src" + tag, [opn, None], "M%s_%s" % (opn, tag), "method"])
+    for opn in OPS:
+        ext = plain("Ext%s_%s" % (opn, tag), [D.OP_CLS[opn] + "Src" + tag], ["x0"], None)
+        steps.append(["def", ext])
+    return steps
+
+
 # ------------------------------------------------------------------ running (names are chosen from the REAL field list)
 
 def run_steps(rnd, steps, exhaustive=False, bad_last=False):
@@ -188,9 +370,46 @@ def test_values(rnd, f, n_vals):
     return vals
 
 
-def behaviour_clauses(rnd, S, Dc, fmap_s, op, n_vals, rep, report):
-    """Every retained field accepts / rejects / normalises exactly as in the source, is the very same
-    field object and keeps its default."""
+def assign_outcome(cls, kwargs, n, value):
+    """What `instance.n = value` does on a valid instance: the exception class, or what the field then holds."""
+    try:
+        inst = cls(**kwargs)
+    except Exception as ex:  # noqa
+        return ("raise-init", norm_exc(E.exn_name(ex)))
+    try:
+        setattr(inst, n, value)
+    except Exception as ex:  # noqa
+        return ("raise", norm_exc(E.exn_name(ex)))
+    try:
+        v = inst.__dict__.get(n, ("<unset>",))
+        if v == ("<unset>",):
+            return ("ok", ("unset", repr(E.reify(getattr(inst, n)))))
+        return ("ok", repr(E.reify(v)))
+    except Exception as ex:  # noqa
+        return ("raise-get", norm_exc(E.exn_name(ex)))
+
+
+def option_seen(cls, opt):
+    v = getattr(cls, opt, ABSENT)
+    return v if v is ABSENT or isinstance(v, bool) else repr(v)
+
+
+def none_key(S, Dc, op):
+    """Names the root cause of a different treatment of None: the class-level option that the derived class does
+    not see as its source does (as values; `absent` leaves the decision to the process-wide default)."""
+    if bool(getattr(S, "_ignore_none", False)) != bool(getattr(Dc, "_ignore_none", False)):
+        inherited = "_ignore_none" not in S.__dict__
+        return "C12/ignore-none/%s/%s" % (op[0], "inherited-not-copied" if inherited else "own")
+    for opt in VALUE_OPTIONS:
+        a, b = option_seen(S, opt), option_seen(Dc, opt)
+        if a != b:
+            return "C12/option-not-carried/%s/%s:%s->%s" % (op[0], opt, a, b)
+    return None
+
+
+def behaviour_clauses(rnd, S, Dc, fmap_s, op, n_vals, rep, report, step=None, extra=None):
+    """Every retained field accepts / rejects / normalises exactly as in the source -- at construction and at
+    assignment --, is the very same field object and keeps its default."""
     sf = S.get_all_fields_by_name()
     df = Dc.get_all_fields_by_name()
     n_eval = 0
@@ -201,6 +420,21 @@ def behaviour_clauses(rnd, S, Dc, fmap_s, op, n_vals, rep, report):
     if base is None:
         return 0
     based = {k: v for k, v in base.items() if k in df}
+    if extra:
+        # Dc is a class statement on top of a derived class: valid values for the fields it adds
+        for _ in range(10):
+            try:
+                add = {k: G.gen_valid(rnd, f, {}) for k, f in extra.items()}
+                Dc(**{k: G.unreify(v, {}) for k, v in dict(based, **add).items()})
+                based.update(add)
+                break
+            except Exception:  # noqa
+                continue
+        else:
+            try:
+                Dc(**{k: G.unreify(v, {}) for k, v in based.items()})
+            except Exception:  # noqa
+                return 0           # no valid instance because of the ADDED fields: nothing to compare
     try:
         Dc(**{k: G.unreify(v, {}) for k, v in based.items()})
     except Exception as ex:  # noqa
@@ -210,9 +444,10 @@ def behaviour_clauses(rnd, S, Dc, fmap_s, op, n_vals, rep, report):
         return 0
     sreq = set(getattr(S, "_required"))
     dreq = set(getattr(Dc, "_required"))
+    can_assign = not getattr(S, "_immutable", False) and not getattr(Dc, "_immutable", False)
     for n in df:
         f = fmap_s.get(n)
-        if f is None:
+        if f is None or n not in sf:
             continue
         for v in test_values(rnd, f, n_vals):
             if v[0] == "none" and ((n in sreq) != (n in dreq)):
@@ -221,22 +456,33 @@ def behaviour_clauses(rnd, S, Dc, fmap_s, op, n_vals, rep, report):
                 pv = G.unreify(v, {})
             except Exception:  # noqa
                 continue
-            ks = {k: G.unreify(x, {}) for k, x in base.items()}
-            ks[n] = pv
-            kd = {k: G.unreify(x, {}) for k, x in based.items()}
-            kd[n] = pv
-            os_ = outcome(S, ks, n)
-            od = outcome(Dc, kd, n)
-            n_eval += 1
-            if os_ != od:
-                if v[0] == "none" and bool(getattr(S, "_ignore_none", False)) != bool(getattr(Dc, "_ignore_none", False)):
-                    inherited = "_ignore_none" not in S.__dict__
-                    key = "C12/ignore-none/%s/%s" % (op[0], "inherited-not-copied" if inherited else "own")
+            for mode in ("init", "assign") if can_assign else ("init",):
+                ks = {k: G.unreify(x, {}) for k, x in base.items()}
+                kd = {k: G.unreify(x, {}) for k, x in based.items()}
+                if mode == "init":
+                    ks[n] = pv
+                    kd[n] = pv
+                    os_ = outcome(S, ks, n)
+                    od = outcome(Dc, kd, n)
                 else:
-                    key = "C12/behaviour/%s/%s/%s" % (op[0], f["t"], v[0])
-                report(key, "field %r given %s: source %s -> %s, derived %s -> %s" % (
-                    n, G.py_src(v), S.__name__, os_, Dc.__name__, od),
-                    {"field": n, "value": G.py_src(v), "source_outcome": os_, "derived_outcome": od})
+                    if base[n][0] == "none" and ((n in sreq) != (n in dreq)):
+                        continue   # the instance starts from None for this field: follows requiredness, as above
+                    try:
+                        pv2 = G.unreify(v, {})
+                    except Exception:  # noqa
+                        continue
+                    os_ = assign_outcome(S, ks, n, pv)
+                    od = assign_outcome(Dc, kd, n, pv2)
+                n_eval += 1
+                if os_ != od:
+                    key = none_key(S, Dc, op) if (v[0] == "none" or (mode == "assign" and base[n][0] == "none")) else None
+                    if key is None:
+                        key = "C12/behaviour/%s/%s/%s%s" % (op[0], f["t"], v[0], "" if mode == "init" else "/assign")
+                    report(key, "field %r %s %s: source %s -> %s, derived %s -> %s" % (
+                        n, "given" if mode == "init" else "assigned", G.py_src(v), S.__name__, os_, Dc.__name__, od),
+                        {"field": n, "value": G.py_src(v), "mode": mode, "source_outcome": os_, "derived_outcome": od,
+                         "direct": {"step": step, "field": n, "value": G.py_src(v), "mode": mode,
+                                    "base": {k: G.py_src(x) for k, x in base.items()}}})
     return n_eval
 
 
@@ -264,30 +510,58 @@ def class_probe(rnd_seed, cls, fmap):
 
 # ------------------------------------------------------------------ one program
 
-def check_program(rnd, steps, rep, stream, n_vals, bad_last=False):
-    """Runs a program on the implementation, evaluates the implementation-side clauses.
-    Returns (prog, outcomes, findings) — findings = [(key, what, data)]."""
+def program_text(prog, cfg, cfg_use=None):
+    tail = ""
+    if cfg_use:
+        tail = "\n# the process-wide defaults change after the classes were made\n" + "".join(
+            "TypedPyDefaults.%s = %r\n" % (k, v) for k, v in sorted(cfg_use.items()) if (cfg or DEFAULT_CFG).get(k) != v)
+        if "import TypedPyDefaults" not in cfg_src(cfg):
+            tail = "from typedpy.structures import TypedPyDefaults\n" + tail
+    return D.IMPORTS + cfg_src(cfg) + "\n" + "\n".join(D.step_src(st) for st in prog) + tail
+
+
+def check_program(rnd, steps, rep, stream, n_vals, bad_last=False, cfg=None, cfg_use=None):
+    """Runs a program on the implementation under the process-wide defaults `cfg`, evaluates the
+    implementation-side clauses (under `cfg_use` if given: the defaults as they are when the classes are USED).
+    Returns (prog, outcomes, findings, ns) — findings = [(key, what, data)]."""
+    with with_globals(cfg):
+        return _check_program(rnd, steps, rep, stream, n_vals, bad_last, cfg, cfg_use)
+
+
+def _check_program(rnd, steps, rep, stream, n_vals, bad_last, cfg, cfg_use):
+    with with_globals(cfg):
+        prog, outs, ns = run_steps(rnd, steps, bad_last=bad_last)
+    with with_globals(cfg_use or cfg):
+        return _clauses(rnd, prog, outs, ns, rep, stream, n_vals, cfg, cfg_use)
+
+
+def _clauses(rnd, prog, outs, ns, rep, stream, n_vals, cfg, cfg_use):
     findings = []
-    prog, outs, ns = run_steps(rnd, steps, bad_last=bad_last)
     fmaps = D.field_ast_map(prog, ns)
-    src_text = D.program_src(prog)
+    src_text = program_text(prog, cfg, cfg_use)
 
     def report(key, what, data):
-        findings.append((key, what, dict(data, python=src_text, program=prog)))
+        findings.append((key, what, dict(data, python=src_text, program=prog, globals=dict(cfg or {}),
+                                         globals_use=dict(cfg_use) if cfg_use else None)))
 
     # source-unchanged: fingerprint every class right after the program and compare with a fingerprint
     # of the same class object re-created in a fresh namespace WITHOUT the later steps
     first_derive = next((i for i, st in enumerate(prog) if st[0] == "derive"), None)
     if first_derive is not None:
         ns0 = D.fresh_ns()
-        for st in prog[:first_derive]:
-            try:
-                exec(D.step_src(st), ns0)
-            except Exception:  # noqa
-                pass
+        with with_globals(cfg):
+            for st in prog[:first_derive]:
+                try:
+                    exec(D.step_src(st), ns0)
+                except Exception:  # noqa
+                    pass
+        n_defs = {}
+        for st in prog:
+            if st[0] == "def":
+                n_defs[st[1]["name"]] = n_defs.get(st[1]["name"], 0) + 1
         for st in prog[:first_derive]:
             nm = D.step_name(st)
-            if st[0] == "def" and nm in ns and nm in ns0:
+            if st[0] == "def" and nm in ns and nm in ns0 and n_defs.get(nm) == 1:
                 p_after = class_probe(12345, ns[nm], fmaps.get(nm, {}))
                 p_fresh = class_probe(12345, ns0[nm], fmaps.get(nm, {}))
                 rep.count(stream + ":source-unchanged", 1)
@@ -296,10 +570,49 @@ def check_program(rnd, steps, rep, stream, n_vals, bad_last=False):
                     report("C12/source-changed/%s" % "+".join(sorted({s[2][0] for s in prog if s[0] == "derive"})),
                            "class %s behaves differently after deriving from it" % nm,
                            {"class": nm, "after": p_after[0], "fresh": p_fresh[0], "diff": repr(diff)})
-    for st, o in zip(prog, outs):
+    # history: what a step produced is what the name still denotes at the end of the program (nothing a later
+    # derivation does may reach back into a class made earlier)
+    last_binding = {}
+    for i, st in enumerate(prog):
+        if outs[i][0] == "ok":
+            last_binding[D.step_name(st)] = i
+    for nm, i in last_binding.items():
+        if nm in ns:
+            try:
+                now = D.observe(ns[nm])
+            except Exception as ex:  # noqa
+                now = repr(ex)
+            rep.count(stream + ":unchanged-later", 1)
+            if now != outs[i][1]:
+                later = sorted({s2[2][0] for s2 in prog[i + 1:] if s2[0] == "derive"})
+                report("C12/changed-by-later-derivation/%s" % "+".join(later),
+                       "class %s is not what it was when it was made (step %d)" % (nm, i),
+                       {"class": nm, "then": outs[i][1], "now": now})
+    made = {}                       # id(class object) -> name of the step that produced it first
+    derived_from = {}               # name of a derived class -> index of the derive step
+    for i, (st, o) in enumerate(zip(prog, outs)):
+        if st[0] == "def" and o[0] == "ok" and ns.get(D.step_name(st)) is not None and last_binding.get(D.step_name(st)) == i:
+            made.setdefault(id(ns[D.step_name(st)]), D.step_name(st))
+        if st[0] == "def" and o[0] == "ok" and len(st[1]["bases"]) == 1 and st[1]["bases"][0] in derived_from:
+            # "the same holds when the derived class is further extended with new fields": a class statement on
+            # top of a derived class that sets no option of its own and redeclares nothing
+            j = derived_from[st[1]["bases"][0]]
+            stm = st[1]
+            S, X = ns.get(prog[j][1]), ns.get(stm["name"])
+            own = {m["name"]: (m["field"] if m["kind"] == "decl" else None) for m in stm["members"]}
+            if (S is not None and X is not None and last_binding.get(stm["name"]) == i
+                    and stm.get("ignore_none") is None and stm.get("required") is None and stm.get("optional") is None
+                    and not any(a[0].startswith("_enable") for a in stm.get("attrs") or [])
+                    and not set(own) & set(S.get_all_fields_by_name()) and None not in own.values()):
+                opx = [prog[j][2][0] + "+subclass"]
+                n = behaviour_clauses(rnd, S, X, fmaps.get(prog[j][1], {}), opx, n_vals, rep, report, step=None, extra=own)
+                rep.count(stream + ":values-extended-class", n)
+            continue
         if st[0] != "derive":
             continue
         op = st[2]
+        if o[0] == "ok" and last_binding.get(D.derived_name(st)) == i:
+            derived_from[D.derived_name(st)] = i
         S = ns.get(st[1])
         rep.count(stream, 1, (op[0], len(op[1]) if len(op) > 1 else -1, o[0],
                               tuple(sorted(S.get_all_fields_by_name())) if S is not None else ()))
@@ -308,11 +621,16 @@ def check_program(rnd, steps, rep, stream, n_vals, bad_last=False):
         if o[0] != "ok" or S is None:
             continue
         Dc = ns.get(D.derived_name(st))
-        if Dc is None:
+        if Dc is None or last_binding.get(D.derived_name(st)) != i:
             continue
+        if id(Dc) in made:
+            report("C12/not-a-new-class/%s" % op[0],
+                   "%s[%s] returned the class object that step %r had produced" % (D.OP_CLS[op[0]], st[1], made[id(Dc)]),
+                   {"step": i, "same_as": made[id(Dc)]})
+        made.setdefault(id(Dc), D.derived_name(st))
         if issubclass(Dc, S):
             report("C12/subclass/%s" % op[0], "%s is a subclass of its source %s" % (Dc.__name__, S.__name__), {})
-        n = behaviour_clauses(rnd, S, Dc, fmaps.get(st[1], {}), op, n_vals, rep, report)
+        n = behaviour_clauses(rnd, S, Dc, fmaps.get(st[1], {}), op, n_vals, rep, report, step=i)
         rep.count(stream + ":values", n)
     return prog, outs, findings, ns
 
@@ -396,13 +714,21 @@ def run(rep, tier):
     max_ops = 3 if quick else 6
     n_vals = 5 if quick else 8
     cases = []
+    cfgs = []
     all_findings = []
-    # stream 1: operator chains (with further extension, occasional bad names)
+
+    def add_case(prog, outs, fnd, cfg, stream):
+        cases.append((prog, outs, (True, True, bool(cfg.get("additional_properties_default", True)))))
+        cfgs.append(cfg)
+        rep.stat(stream, "globals:" + cfg_tag(cfg))
+        all_findings.extend(fnd)
+
+    # stream 1: operator chains (with further extension, occasional bad names), under random process-wide defaults
     for i in range(n_chain):
         steps = gen_chain_program(rnd, "c%d" % i, max_ops)
-        prog, outs, fnd, _ = check_program(rnd, steps, rep, "chain", n_vals, bad_last=(i % 9 == 0))
-        cases.append((prog, outs, (True, True)))
-        all_findings += fnd
+        cfg = gen_cfg(rnd)
+        prog, outs, fnd, _ = check_program(rnd, steps, rep, "chain", n_vals, bad_last=(i % 9 == 0), cfg=cfg)
+        add_case(prog, outs, fnd, cfg, "chain")
     # stream 2: all subsets of the field names of a source (<= 5 fields), Omit and Pick
     for i in range(n_subsets):
         steps, src = gen_source(rnd, "s%d" % i, False)
@@ -422,9 +748,9 @@ def run(rep, tier):
                 for opn in ("omit", "pick"):
                     steps.append(["derive", src, [opn, list(sub)], "S%d_%d" % (i, k)])
                     k += 1
-        prog, outs, fnd, _ = check_program(rnd, steps, rep, "subsets", 2 if quick else 4)
-        cases.append((prog, outs, (True, True)))
-        all_findings += fnd
+        cfg = gen_cfg(rnd)
+        prog, outs, fnd, _ = check_program(rnd, steps, rep, "subsets", 2 if quick else 4, cfg=cfg)
+        add_case(prog, outs, fnd, cfg, "subsets")
     # stream 3: every operator on sources with constants / inherited settings (the corners)
     for i in range(20 if quick else 80):
         steps, src = gen_source(rnd, "k%d" % i, True)
@@ -434,16 +760,55 @@ def run(rep, tier):
         for j, opn in enumerate(OPS):
             op = [opn] + ([None] if opn in ("omit", "pick") else [])
             steps.append(["derive", src, op, None])
-        prog, outs, fnd, _ = check_program(rnd, steps, rep, "corners", n_vals)
-        cases.append((prog, outs, (True, True)))
-        all_findings += fnd
+        cfg = gen_cfg(rnd)
+        prog, outs, fnd, _ = check_program(rnd, steps, rep, "corners", n_vals, cfg=cfg)
+        add_case(prog, outs, fnd, cfg, "corners")
+    # stream 4 (enumeration): one operator over a base class, its subclass and a sibling, in every order, both
+    # spellings of omit / pick; the process-wide defaults rotate
+    k = 0
+    perms3 = list(itertools.permutations(range(3)))
+    perms4 = list(itertools.permutations(range(4)))
+    hier = [(o, sp, False) for o in perms3 for sp in ("subscript", "method")]
+    extra = perms4 if not quick else rnd.sample(perms4, 4)
+    hier += [(o, sp, True) for o in extra for sp in (("subscript", "method") if not quick else ("subscript",))]
+    for rnd_round in range(1 if quick else 3):
+        for order, spelling, grand in hier:
+            cfg = dict(CONFIGS4[k % 4])
+            steps = gen_hier_program(rnd, "h%d" % k, order, spelling, grand)
+            prog, outs, fnd, _ = check_program(rnd, steps, rep, "hierarchy-orders", 2, cfg=cfg)
+            rep.stat("hierarchy-orders", "order:%s/%s" % ("".join(map(str, order)), spelling))
+            add_case(prog, outs, fnd, cfg, "hierarchy-orders")
+            k += 1
+    for j in range(4 if quick else 16):
+        cfg = dict(CONFIGS4[j % 4])
+        steps = gen_redefine_program(rnd, "r%d" % j, "subscript" if j % 2 == 0 else "method")
+        prog, outs, fnd, _ = check_program(rnd, steps, rep, "hierarchy-orders", 2, cfg=cfg)
+        rep.stat("hierarchy-orders", "order:redefined-class-of-the-same-name")
+        add_case(prog, outs, fnd, cfg, "hierarchy-orders")
+    # stream 5 (enumeration): every class-level option at every explicit value (own / inherited / overriding the
+    # base's) under every combination of the process-wide defaults, all operators
+    k = 0
+    for rnd_round in range(1 if quick else 3):
+        for shape in OPTION_SHAPES:
+            for cfg0 in CONFIGS4:
+                cfg = dict(cfg0)
+                kind = ["Structure", "ImmutableStructure", "FinalStructure"][k % 3] if shape[1] in ("own", "absent") else "Structure"
+                steps = gen_option_program(rnd, "o%d" % k, shape, kind)
+                # every third program: the process-wide defaults are switched AFTER the classes were made
+                cfg_use = dict(cfg, allow_none_for_optionals=not cfg["allow_none_for_optionals"]) if k % 3 == 2 else None
+                prog, outs, fnd, _ = check_program(rnd, steps, rep, "class-options", 2, cfg=cfg, cfg_use=cfg_use)
+                rep.stat("class-options", "defaults-switched-after-definition:%s" % bool(cfg_use))
+                rep.stat("class-options", "shape:%s/%s/%s" % shape)
+                rep.stat("class-options", "source-kind:" + kind)
+                add_case(prog, outs, fnd, cfg, "class-options")
+                k += 1
     for key, what, data in all_findings:
         rep.finding(key, what, data)
     rep.obligation("spec-on-implementation:behaviour/identity/source-unchanged", not all_findings,
                    "%d programs, %d disagreements" % (len(cases), len(all_findings)))
     sample_i = [0, len(cases) // 2, len(cases) - 1]
     for i in sample_i:
-        rep.sample({"program": D.program_src(cases[i][0])[len(D.IMPORTS):][:1500],
+        rep.sample({"program": program_text(cases[i][0], cfgs[i])[len(D.IMPORTS):][:1500],
                     "outcomes": [o[0] if o[0] != "raise" else o[1] for o in cases[i][1]]})
     if model_ok:
         try:
@@ -466,7 +831,8 @@ def run(rep, tier):
                         CLAUSE[clause], D.OP_CLS[prog[step][2][0]], prog[step][1],
                         next((o[1] for s2, o in zip(prog, outs) if D.step_name(s2) == prog[step][1] and o[0] == "ok"), None),
                         outs[step][1] if outs[step][0] == "ok" else outs[step][1:]),
-                        {"program": prog, "step": step, "clause": CLAUSE[clause], "python": D.program_src(prog)})
+                        {"program": prog, "step": step, "clause": CLAUSE[clause], "python": program_text(prog, cfgs[ci]),
+                         "globals": cfgs[ci]})
             rep.obligation("spec-on-observed:doc_fields/doc_required", n_spec == 0,
                            "%d derivations checked against the documented sets in Coq, %d clause failures" % (
                                sum(1 for p, _, _ in cases for s in p if s[0] == "derive"), n_spec))
@@ -481,7 +847,7 @@ def run(rep, tier):
                 rep.broken("correspondence:define+derive",
                            "model (Struct/Define.v, Struct/Derive.v) and typedpy differ on %d generated programs "
                            "(first: step %s); no clause of C12 failed on any explored input" % (len(bad), m),
-                           {"python": D.program_src(prog), "steps": m,
+                           {"python": program_text(prog, cfgs[ci]), "steps": m, "globals": cfgs[ci],
                             "observed": [o[1] if o[0] != "mixin" else None for o in (outs[i] for i in m)]})
     if not proofs_ok:
         from harness.props.c17 import broken_build
@@ -499,24 +865,60 @@ def run(rep, tier):
              "distinct = distinct (operator, #names, outcome, source field set)" % (max_ops, n_vals + 1))
 
 
+def replay_direct(prog, cfg, d, cfg_use=None):
+    """Re-executes the one recorded comparison (field, value, construction or assignment) on source and derived."""
+    ns = D.fresh_ns()
+    with with_globals(cfg):
+        for st in prog:
+            try:
+                exec(D.step_src(st), ns)
+            except Exception as ex:  # noqa
+                print("  step %s raises %r" % (D.step_name(st), ex))
+    with with_globals(cfg_use or cfg):
+        st = prog[d["step"]]
+        S, Dc = ns.get(st[1]), ns.get(D.derived_name(st))
+        if S is None or Dc is None:
+            print("  source or derived class missing")
+            return 1
+        n = d["field"]
+        res = []
+        for cls in (S, Dc):
+            kw = {k: eval(v, ns) for k, v in d["base"].items() if k in cls.get_all_fields_by_name()}
+            val = eval(d["value"], ns)
+            if d["mode"] == "init":
+                kw[n] = val
+                res.append(outcome(cls, kw, n))
+            else:
+                res.append(assign_outcome(cls, kw, n, val))
+        print("  field %r, %s %s:" % (n, "constructed with" if d["mode"] == "init" else "assigned", d["value"]))
+        print("    source  %-28s observed %s" % (S.__name__, res[0]))
+        print("    derived %-28s observed %s   (required: the same as the source)" % (Dc.__name__, res[1]))
+        return 1 if res[0] != res[1] else 0
+
+
 def replay(obj):
     """Re-runs the recorded program on the implementation and prints what the clause in question observes."""
     prog = obj.get("program")
     if not prog:
         print(obj.get("detail", "no program recorded"))
         return 2
+    cfg = obj.get("globals") or {}
+    cfg_use = obj.get("globals_use") or None
     rnd = random.Random(7)
     rep = core.Report("C12", "quick")
-    prog2, outs, findings, ns = check_program(rnd, prog, rep, "replay", 6)
-    print(D.program_src(prog2)[len(D.IMPORTS):])
+    bad = 0
+    print(program_text(prog, cfg, cfg_use)[len(D.IMPORTS):])
+    if obj.get("direct") and obj["direct"].get("step") is not None:
+        bad = replay_direct(prog, cfg, obj["direct"], cfg_use)
+    prog2, outs, findings, ns = check_program(rnd, prog, rep, "replay", 6, cfg=cfg, cfg_use=cfg_use)
     for st, o in zip(prog2, outs):
         print(" ", D.step_name(st), "->", o[1] if o[0] != "mixin" else "mixin")
-    bad = 0
     for key, what, _ in findings:
         print("implementation-side clause fails:", key, "|", what)
         bad = 1
     try:
-        mism, spec, unm = evaluate([(prog2, outs, (True, True))], tag="c12replay")
+        mism, spec, unm = evaluate([(prog2, outs, (True, True, bool(cfg.get("additional_properties_default", True))))],
+                                   tag="c12replay")
         for step, clause in spec[0]:
             print("documented-set clause fails at step %d: %s" % (step, CLAUSE[clause]))
             bad = 1
